@@ -268,8 +268,11 @@ theorem ginv_drainSend {W : Nat} {s s' : St} (h : GInv W s) (hs : step? s .drain
   · next _ it rest =>
     dsimp only at *
     split at hs
-    · injection hs with hs; subst hs
-      close_ginv it.id
+    · split at hs
+      · injection hs with hs; subst hs
+        close_ginv it.id
+      · injection hs with hs; subst hs
+        close_ginv it.id
     · cases hs
   · cases hs
 
